@@ -6,6 +6,11 @@ package c06
 //   - Sign signs the bytes it is given;
 //   - the protecting methods sign hash_tree_root(SigningData(root of what they are given, domain));
 //   - the multi methods do that per account, and return a nil entry for an account that cannot sign.
+// Besides accounts that can never sign (Acc.Fail) there are the TRANSIENT failures of a remote
+// signer, scripted per request (stepEnv, carried in the request's context): a batch call answers
+// with a nil entry (or an all-zero signature object) for one member that could sign alone, a batch
+// call fails as a whole on the account it is made on, a single-signature call fails for an account
+// that a batch call would sign for.
 // Every signature produced is remembered with the call that produced it (its "provenance", a
 // Gallina term of type Check.C06.psig), so that the harness can say for every signature the service
 // returns which account signed what.
@@ -147,7 +152,88 @@ func (b *base) PublicKey() e2types.PublicKey {
 // validatorPubKey is the key the validator is known by on chain.
 func (b *base) validatorPubKey() e2types.PublicKey { return b.priv().PublicKey() }
 
-var errCannotSign = errors.New("mock account cannot sign")
+var (
+	errCannotSign = errors.New("mock account cannot sign")
+	errMultiCall  = errors.New("mock: the multi-signature call fails")
+)
+
+// zeroSignature is what a remote signer library hands back for a member it has no signature for
+// when it does not leave the entry nil: an object whose bytes are all zero.
+type zeroSignature struct{}
+
+func (zeroSignature) Verify([]byte, e2types.PublicKey) bool                     { return false }
+func (zeroSignature) VerifyAggregate([][]byte, []e2types.PublicKey) bool        { return false }
+func (zeroSignature) VerifyAggregateCommon([]byte, []e2types.PublicKey) bool    { return false }
+func (zeroSignature) Marshal() []byte                                           { return make([]byte, 96) }
+
+// multiCall numbers the multi-signature calls made for the request of ctx.
+func multiCall(ctx context.Context) int {
+	e := stepOf(ctx)
+	if e == nil {
+		return 0
+	}
+	e.mu.Lock()
+	defer e.mu.Unlock()
+	e.multiCalls++
+	return e.multiCalls
+}
+
+func stepOf(ctx context.Context) *stepEnv {
+	e, _ := ctx.Value(stepEnvKey{}).(*stepEnv)
+	return e
+}
+
+// singleFails: the single-signature methods of the account fail while this request is handled.
+func singleFails(ctx context.Context, key uint64) bool {
+	e := stepOf(ctx)
+	if e == nil {
+		return false
+	}
+	if e.singleOnce[key] {
+		e.mu.Lock()
+		defer e.mu.Unlock()
+		if e.onceDone == nil {
+			e.onceDone = map[uint64]bool{}
+		}
+		if !e.onceDone[key] {
+			e.onceDone[key] = true
+			return true
+		}
+		return false
+	}
+	return e.singleFail[key]
+}
+
+// batchCallFails: a multi-signature call made ON this account fails as a whole for this request.
+func batchCallFails(ctx context.Context, key uint64) bool {
+	e := stepOf(ctx)
+	return e != nil && e.batchErr[key]
+}
+
+// batchMisses: multi-signature calls made for this request have no signature for this member
+// (nil entry, or an all-zero signature object when zero).
+func batchMisses(ctx context.Context, call int, key uint64) (miss bool, zero bool) {
+	e := stepOf(ctx)
+	if e == nil {
+		return false, false
+	}
+	if e.batchOnce[key] {
+		e.mu.Lock()
+		defer e.mu.Unlock()
+		if e.onceCall == nil {
+			e.onceCall = map[uint64]int{}
+		}
+		if c, seen := e.onceCall[key]; seen {
+			return c == call, false
+		}
+		e.onceCall[key] = call
+		return true, false
+	}
+	if e.batchZero[key] {
+		return true, true
+	}
+	return e.batchFail[key], false
+}
 
 func attTerm(slot, idx uint64, bbr []byte, se uint64, sr []byte, te uint64, tr []byte) string {
 	return App("AttData", N(slot), N(idx), BigN(bbr), N(se), BigN(sr), N(te), BigN(tr))
@@ -157,7 +243,7 @@ func attTerm(slot, idx uint64, bbr []byte, se uint64, sr []byte, te uint64, tr [
 type capS struct{ b *base }
 
 func (c capS) Sign(ctx context.Context, data []byte) (e2types.Signature, error) {
-	if c.b.d.Fail {
+	if c.b.d.Fail || singleFails(ctx, c.b.d.Key) {
 		return nil, errCannotSign
 	}
 	sig := c.b.priv().Sign(data)
@@ -169,7 +255,7 @@ func (c capS) Sign(ctx context.Context, data []byte) (e2types.Signature, error) 
 type capP struct{ b *base }
 
 func (c capP) SignGeneric(ctx context.Context, data []byte, domain []byte) (e2types.Signature, error) {
-	if c.b.d.Fail {
+	if c.b.d.Fail || singleFails(ctx, c.b.d.Key) {
 		return nil, errCannotSign
 	}
 	root := specSigningRoot(toChunk(data), toChunk(domain))
@@ -179,7 +265,7 @@ func (c capP) SignGeneric(ctx context.Context, data []byte, domain []byte) (e2ty
 }
 
 func (c capP) SignBeaconProposal(ctx context.Context, slot uint64, proposerIndex uint64, parentRoot []byte, stateRoot []byte, bodyRoot []byte, domain []byte) (e2types.Signature, error) {
-	if c.b.d.Fail {
+	if c.b.d.Fail || singleFails(ctx, c.b.d.Key) {
 		return nil, errCannotSign
 	}
 	root := specSigningRoot(specHeader(slot, proposerIndex, toChunk(parentRoot), toChunk(stateRoot), toChunk(bodyRoot)), toChunk(domain))
@@ -190,7 +276,7 @@ func (c capP) SignBeaconProposal(ctx context.Context, slot uint64, proposerIndex
 }
 
 func (c capP) SignBeaconAttestation(ctx context.Context, slot uint64, committeeIndex uint64, blockRoot []byte, sourceEpoch uint64, sourceRoot []byte, targetEpoch uint64, targetRoot []byte, domain []byte) (e2types.Signature, error) {
-	if c.b.d.Fail {
+	if c.b.d.Fail || singleFails(ctx, c.b.d.Key) {
 		return nil, errCannotSign
 	}
 	root := specSigningRoot(specAttData(slot, committeeIndex, toChunk(blockRoot), sourceEpoch, toChunk(sourceRoot), targetEpoch, toChunk(targetRoot)), toChunk(domain))
@@ -206,10 +292,20 @@ func (c capM) SignBeaconAttestations(ctx context.Context, slot uint64, accounts 
 	if len(accounts) != len(committeeIndices) {
 		return nil, errors.New("mock: accounts and committee indices differ in number")
 	}
+	if batchCallFails(ctx, c.b.d.Key) {
+		return nil, errMultiCall
+	}
+	call := multiCall(ctx)
 	res := make([]e2types.Signature, len(accounts))
 	for i := range accounts {
 		b := accounts[i].(baser).theBase()
 		if b.d.Fail {
+			continue
+		}
+		if miss, zero := batchMisses(ctx, call, b.d.Key); miss {
+			if zero {
+				res[i] = zeroSignature{}
+			}
 			continue
 		}
 		root := specSigningRoot(specAttData(slot, committeeIndices[i], toChunk(blockRoot), sourceEpoch, toChunk(sourceRoot), targetEpoch, toChunk(targetRoot)), toChunk(domain))
@@ -224,10 +320,20 @@ func (c capM) SignGenericMulti(ctx context.Context, accounts []e2wtypes.Account,
 	if len(accounts) != len(data) {
 		return nil, errors.New("mock: accounts and data differ in number")
 	}
+	if batchCallFails(ctx, c.b.d.Key) {
+		return nil, errMultiCall
+	}
+	call := multiCall(ctx)
 	res := make([]e2types.Signature, len(accounts))
 	for i := range accounts {
 		b := accounts[i].(baser).theBase()
 		if b.d.Fail {
+			continue
+		}
+		if miss, zero := batchMisses(ctx, call, b.d.Key); miss {
+			if zero {
+				res[i] = zeroSignature{}
+			}
 			continue
 		}
 		root := specSigningRoot(toChunk(data[i]), toChunk(domain))
@@ -420,6 +526,27 @@ type stepEnv struct {
 	fail  bool
 	calls []string
 	prov  map[string]string // signature bytes -> provenance term, for the calls made for this request
+	// transient failures of the remote signer while this request is handled (read only), by key
+	batchFail, batchZero, batchErr, singleFail map[uint64]bool
+	// batchOnce: only the FIRST multi-signature call of this request that has the member among its
+	// accounts leaves it out; a later call (a second round for the left-overs) signs for it
+	batchOnce map[uint64]bool
+	// singleOnce: only the FIRST single-signature call made on the account for this request fails
+	singleOnce map[uint64]bool
+	onceDone   map[uint64]bool
+	multiCalls int            // multi-signature calls made for this request so far
+	onceCall   map[uint64]int // the call that left the member out
+}
+
+func keySet(keys []uint64) map[uint64]bool {
+	if len(keys) == 0 {
+		return nil
+	}
+	m := map[uint64]bool{}
+	for _, k := range keys {
+		m[k] = true
+	}
+	return m
 }
 
 // provenance of a signature returned for the request of e: the call made for this request that
